@@ -150,6 +150,11 @@ func (s *Solver) sync() []string {
 	limit := time.Duration(3*s.timeout+10000) * time.Millisecond
 	select {
 	case r := <-ch:
+		if s.log != nil {
+			for _, l := range r.lines {
+				io.WriteString(s.log, "; <- "+l+"\n")
+			}
+		}
 		for _, l := range r.lines {
 			if strings.Contains(l, "solver died") {
 				s.dead = true
